@@ -835,6 +835,8 @@ func prepareOpt(c *scase) *call {
 			}
 			return nil, err
 		}}
+	case strings.HasPrefix(c.Op, "opt.InSitu."):
+		return prepareInSitu(c, A, x0, quad, root)
 	case c.Op == "opt.qrAlgorithm.InSitu.H":
 		in := &qrAlgorithm.InSitu{H: NullDenseFloat64Matrix(d[1], d[2]), InitializeH: true}
 		return &call{nil, func() (interface{}, error) { h, _, e := qrAlgorithm.Run(A(d[0]), in, qrAlgorithm.Symmetric{Value: true}); return h, e }}
@@ -847,6 +849,202 @@ func prepareOpt(c *scase) *call {
 	}
 	vh.Fatal("option case not bound in the driver: " + c.Op)
 	return nil
+}
+
+// a caller-supplied / re-used InSitu work space member of size wn x wm (wn)
+// for an n x n input; the returned object is the result that corresponds to
+// the member
+func prepareInSitu(c *scase, A func(int) *DenseFloat64Matrix, x0 func(int) DenseFloat64Vector,
+	quad func(ConstVector) (MagicScalar, error), root func(ConstVector) (MagicVector, error)) *call {
+	parts := strings.Split(c.Op, ".")
+	routine, member := parts[2], parts[3]
+	d := c.D
+	n, f := d[0], c.A[0]
+	wm := func() Matrix { return NullDenseFloat64Matrix(d[1], d[2]) }
+	wv := func() Vector { return NullDenseFloat64Vector(d[1]) }
+	a := A(n)
+	type res = interface{}
+	var run func() (res, error)
+	switch routine + "." + member {
+	case "qrAlgorithm.H", "qrAlgorithm.U", "qrAlgorithm.T4":
+		in := &qrAlgorithm.InSitu{InitializeH: f&1 != 0, InitializeU: f&2 != 0}
+		switch member {
+		case "H":
+			in.H = wm()
+		case "U":
+			in.U = wm()
+		default:
+			in.T4 = wv()
+		}
+		run = func() (res, error) {
+			h, u, e := qrAlgorithm.Run(a, in, qrAlgorithm.Symmetric{Value: f&4 != 0}, qrAlgorithm.ComputeU{Value: true})
+			if member == "U" {
+				return u, e
+			}
+			return h, e
+		}
+	case "eigensystem.Eigenvalues", "eigensystem.Eigenvectors":
+		in := &eigensystem.InSitu{}
+		if member == "Eigenvalues" {
+			in.Eigenvalues = wv()
+		} else {
+			in.Eigenvectors = wm()
+		}
+		run = func() (res, error) {
+			v, m, e := eigensystem.Run(a, in, eigensystem.Symmetric{Value: f&1 != 0})
+			if member == "Eigenvalues" {
+				return v, e
+			}
+			return m, e
+		}
+	case "cholesky.L", "cholesky.D":
+		in := &cholesky.InSitu{}
+		ldl := member == "D" || f&1 != 0
+		if member == "L" {
+			in.L = wm()
+		} else {
+			in.D = wm()
+		}
+		run = func() (res, error) {
+			l, dd, e := cholesky.Run(a, in, cholesky.LDL{Value: ldl})
+			if member == "D" {
+				return dd, e
+			}
+			return l, e
+		}
+	case "matrixInverse.Id", "matrixInverse.A", "matrixInverse.B":
+		in := &matrixInverse.InSitu{}
+		switch member {
+		case "Id":
+			in.Id = wm()
+		case "A":
+			in.A = wm()
+		default:
+			in.B = wv()
+		}
+		run = func() (res, error) {
+			return matrixInverse.Run(a, in, matrixInverse.PositiveDefinite{Value: f&1 != 0})
+		}
+	case "svd.A", "svd.U", "svd.V":
+		in := &svd.InSitu{}
+		switch member {
+		case "A":
+			in.A = wm()
+		case "U":
+			in.U = wm()
+		default:
+			in.V = wm()
+		}
+		run = func() (res, error) {
+			h, u, v, e := svd.Run(a, in, svd.ComputeU{Value: true}, svd.ComputeV{Value: true})
+			switch member {
+			case "U":
+				return u, e
+			case "V":
+				return v, e
+			}
+			return h, e
+		}
+	case "householderBidiagonalization.A", "householderBidiagonalization.U", "householderBidiagonalization.V":
+		in := &householderBidiagonalization.InSitu{}
+		switch member {
+		case "A":
+			in.A = wm()
+		case "U":
+			in.U = wm()
+		default:
+			in.V = wm()
+		}
+		run = func() (res, error) {
+			h, u, v, e := householderBidiagonalization.Run(a, in, householderBidiagonalization.ComputeU{Value: true},
+				householderBidiagonalization.ComputeV{Value: true})
+			switch member {
+			case "U":
+				return u, e
+			case "V":
+				return v, e
+			}
+			return h, e
+		}
+	case "householderTridiagonalization.A", "householderTridiagonalization.U":
+		in := &householderTridiagonalization.InSitu{}
+		if member == "A" {
+			in.A = wm()
+		} else {
+			in.U = wm()
+		}
+		run = func() (res, error) {
+			h, u, e := householderTridiagonalization.Run(a, in, householderTridiagonalization.ComputeU{Value: true})
+			if member == "U" {
+				return u, e
+			}
+			return h, e
+		}
+	case "hessenbergReduction.H", "hessenbergReduction.U":
+		in := &hessenbergReduction.InSitu{}
+		if member == "H" {
+			in.H = wm()
+		} else {
+			in.U = wm()
+		}
+		run = func() (res, error) {
+			h, u, e := hessenbergReduction.Run(a, in, hessenbergReduction.ComputeU{Value: true})
+			if member == "U" {
+				return u, e
+			}
+			return h, e
+		}
+	case "backSubstitution.A", "backSubstitution.X":
+		in := &backSubstitution.InSitu{}
+		if member == "A" {
+			in.A = wm()
+			// the work space replaces the clone of the input: give it the input's content
+			vh.Try(func() { in.A.Set(a) })
+		} else {
+			in.X = wv()
+		}
+		run = func() (res, error) {
+			x, e := backSubstitution.Run(a, x0(n), in)
+			if member == "A" && e == nil {
+				return [2]int{x.Dim(), x.Dim()}, nil
+			}
+			return x, e
+		}
+	case "gramSchmidt.Q", "gramSchmidt.R":
+		in := gramSchmidt.InSitu{}
+		if member == "Q" {
+			in.Q = wm()
+		} else {
+			in.R = wm()
+		}
+		run = func() (res, error) {
+			q, r, e := gramSchmidt.Run(a, in)
+			if member == "R" {
+				return r, e
+			}
+			return q, e
+		}
+	case "newtonRoot.T1", "newtonMin.T1":
+		in := &newton.InSitu{T1: wv()}
+		run = func() (res, error) {
+			if routine == "newtonRoot" {
+				return newton.RunRoot(root, x0(n), in, newton.MaxIterations{Value: 3})
+			}
+			return newton.RunMin(quad, x0(n), in, newton.MaxIterations{Value: 3})
+		}
+	default:
+		vh.Fatal("InSitu member not bound in the driver: " + c.Op)
+	}
+	return &call{nil, func() (interface{}, error) {
+		r, e := run()
+		if e != nil {
+			return nil, e
+		}
+		if isNil(r) {
+			return nil, fmt.Errorf("nil result without error")
+		}
+		return r, nil
+	}}
 }
 
 func prepareAlgo(c *scase) *call {
